@@ -34,6 +34,7 @@ const (
 	OpArmNil          // next ComposeFrom returns a nil payload (a composite that carries everything in its event type)
 	OpArmGateableNoID // next ComposeFrom returns a Gateable composite whose GetID() is ""
 	OpArmSendWarn     // next Sender.Send returns a nil error together with a Status that carries warnings and no completion
+	OpArmSendSecond   // the Sender.Send AFTER the next one fails (the second composite of one sweep / FlushAll)
 )
 
 // Tick sizes are expressed relative to the expiration E.
@@ -88,6 +89,8 @@ func (o Op) String() string {
 		return "armGateableCompositeWithoutID"
 	case OpArmSendWarn:
 		return "armSendWarningsWithoutError"
+	case OpArmSendSecond:
+		return "armSecondSendFailure"
 	case OpSetExp:
 		return [...]string{"setExp(0=default)", "setExp(E/2)", "setExp(E)", "setExp(2E)"}[o.Tick%4]
 	}
@@ -173,6 +176,7 @@ type rec struct {
 	lastToks        []int // argument of the most recent ComposeFrom call
 	lastNil         bool  // ... which returned a nil payload
 	armSend         bool
+	armSendSkip     int // successful sends to let through before the armed failure
 }
 
 // ev is the harness's Gateable payload.
@@ -244,7 +248,9 @@ func (s *sender) Send(_ context.Context, _ eventlogger.EventType, payload interf
 	} else {
 		c.Foreign = true
 	}
-	if s.r.armSend {
+	if s.r.armSend && s.r.armSendSkip > 0 {
+		s.r.armSendSkip--
+	} else if s.r.armSend {
 		s.r.armSend = false
 		c.Err = true
 		s.r.sends = append(s.r.sends, c)
@@ -363,6 +369,8 @@ func Run(cfg Config, ops []Op) *Obs {
 			r.armGateableNoID = true
 		case OpArmSendWarn:
 			r.armSendWarn = true
+		case OpArmSendSecond:
+			r.armSend, r.armSendSkip = true, 1
 		case OpSetExp:
 			switch op.Tick % 4 {
 			case 0:
@@ -380,6 +388,7 @@ func Run(cfg Config, ops []Op) *Obs {
 	}
 	// final probe: clock frozen, recording sender, no armed failures
 	r.armCompose, r.armGateable, r.armSend, r.armNil, r.armGateableNoID, r.armSendWarn = false, false, false, false, false, false
+	r.armSendSkip = 0
 	r.composes, r.sends = nil, nil
 	f.Broker = snd
 	if err := f.FlushAll(ctx); err != nil {
